@@ -282,6 +282,8 @@ def run_mdoc(c, out):
             return
     if not out.check(len(m3.imgs) == len(kept_model), "mdoc_roundtrip:written_sections_not_the_kept_ones", f"{len(m3.imgs)} vs {len(kept_model)}"):
         return
+    if not out.check(list(m3.imgs.columns) == list(m.imgs.columns), "mdoc_roundtrip:keys_differ", lambda: f"missing {[k_ for k_ in m.imgs.columns if k_ not in m3.imgs.columns]} extra {[k_ for k_ in m3.imgs.columns if k_ not in m.imgs.columns]}"):
+        return
     kept_rows = m.imgs[m.imgs["Removed"] == False]
     for i_ in range(len(kept_model)):
         r1, r3 = kept_rows.iloc[i_], m3.imgs.iloc[i_]
